@@ -143,10 +143,15 @@ where
         mut y: Self::State,
         id: &ID,
     ) -> Result<(Self::State, Option<OneTimeKeyBundle>), Self::Error> {
-        let bundle = y
-            .onetime_bundles
-            .get_mut(id)
-            .and_then(|bundles| bundles.pop());
+        // Hand out the most recently added bundle whose lifetime is valid right now. Bundles can
+        // expire (or not yet be valid again after a clock adjustment) while they wait in the
+        // registry, these are skipped and left for `remove_expired` to clean up.
+        let bundle = y.onetime_bundles.get_mut(id).and_then(|bundles| {
+            bundles
+                .iter()
+                .rposition(|bundle| bundle.lifetime().verify().is_ok())
+                .map(|index| bundles.remove(index))
+        });
         Ok((y, bundle))
     }
 }
